@@ -237,6 +237,11 @@ def write_evidence(prop, tier, seed, results, violations, known_hits, confirmed,
         "seed": seed,
         "level": "model_checking",
         "coverage": {
+            # model_checking keys: a "state" here is a symbolic pre-state class (one concrete table-pair
+            # layout with all contents symbolic), a "transition" one (layout class, call) harness
+            "states": len(set((r.get("config"), r["harness"].split("__", 1)[-1]) for r in results)),
+            "transitions": len(results),
+            "traces_validated_against_impl": confirmed,
             "evaluations": len(results),
             "distinct_nontrivial": len(cls),
             "rule": "one evaluation = one Kani harness (concrete table-pair layout; symbolic contents, arguments, callback decisions) discharged by CBMC for all values; distinct_nontrivial = number of distinct (build configuration, harness, behaviour class) triples whose kani::cover! was SATISFIED in this run (e.g. 'insert grew the table', 'removed an old-table element')",
